@@ -17,7 +17,7 @@ VARIABLES sc, exp
 
 C(t, a) == [t |-> t, a |-> a]
 Calls == {C("dA", ""), C("dB", ""), C("eA", ""), C("eB", ""), C("cV", "one"), C("cV", "two"),
-          C("sV", "one"), C("sV", "two"), C("mR", "l1"), C("mR", "l2"), C("fV", "s1"), C("fV", "s2")}
+          C("sV", "one"), C("sV", "two"), C("mR", "l1"), C("mR", "l2"), C("fV", "s1"), C("fV", "s2"), C("dF", "one"), C("dF", "two")}
 
 Items(a) == CASE a = "l1" -> <<"1", "2">> [] a = "l2" -> <<"x">> [] a = "s1" -> <<"p", "q">> [] a = "s2" -> <<"r">> [] OTHER -> <<>>
 
@@ -30,6 +30,7 @@ Lines(c) ==
     [] c.t = "cV" -> <<"cV|" \o c.a>>                \* prints the call variable
     [] c.t = "sV" -> <<"sV|" \o c.a>>                \* D: {sh: 'echo {{.V}}'}
     [] c.t = "mR" -> [i \in 1..Len(Items(c.a)) |-> "mR|" \o Items(c.a)[i]]   \* for: matrix: {X: {ref: .L}}
+    [] c.t = "dF" -> <<"dF|work|" \o c.a, "dF|deferred|" \o c.a>>   \* a command and a deferred command printing the call variable
     [] c.t = "fV" -> [i \in 1..Len(Items(c.a)) |-> "fV|" \o Items(c.a)[i]]   \* for: {var: S}
 
 Prefixes == {<<>>} \cup {<<c>> : c \in Calls}
